@@ -9,7 +9,7 @@ package probe
 //	flush            http.Flusher.Flush              read:K       read the request body in chunks of K
 //	report           write {"read":n,"err":"…","sum":"…"} (JSON) as the body (status 200 unless set)
 //	ret:S            return (S, nil)                 reterr:S     return (S, error "probe error")
-//	panic            panic("probe panic")            next         call the next handler and return its result
+//	panic[:err|abort|runtime]   panic with a string / an error / http.ErrAbortHandler / a run-time error            next         call the next handler and return its result
 //
 // Without the header (or with verifprobe not in the path scope) the next handler runs.
 // Usage in a Casketfile:  verifprobe [path]
@@ -124,6 +124,15 @@ func (p probeHandler) ServeHTTP(w http.ResponseWriter, r *http.Request) (int, er
 			n, _ := strconv.Atoi(arg)
 			return n, errors.New("probe error")
 		case "panic":
+			switch arg {
+			case "err":
+				panic(errors.New("probe panic (error value)"))
+			case "abort":
+				panic(http.ErrAbortHandler)
+			case "runtime":
+				var m map[string]int
+				m["x"] = 1 // assignment to entry in nil map: a runtime.Error
+			}
 			panic("probe panic")
 		case "next":
 			return p.next.ServeHTTP(w, r)
